@@ -341,6 +341,18 @@ def o_ivector(rng):
         out.append(np.asarray(iv.project(gen.mk_stats(C, D, n, ff, np.zeros((C, D)), 10)), float))
     if not core.close(out[0], out[1], 1e-6, 1e-8):
         return {"sig": "ivector-not-invariant", "what": f"{out[1].tolist()} vs {out[0].tolist()}"}
+    # the machine that was used in the original units is itself converted to the new units (its UBM, T and sigma re-assigned through
+    # the public attributes), directly or as a deep copy: it then is the machine of the new units
+    import copy
+    iv0 = IVectorMachine(gen.mk_gmm(w, m, v), dim_t=R)
+    iv0.dim_c, iv0.dim_d, iv0.T, iv0.sigma = C, D, T, np.array(v)
+    core.impl(lambda: iv0.project(gen.mk_stats(C, D, n, f, np.zeros((C, D)), 10)))
+    for how, mach in (("the same machine", iv0), ("a deep copy of the machine", copy.deepcopy(iv0))):
+        mach.ubm = gen.mk_gmm(w, a * m + b, a * a * v)
+        mach.T, mach.sigma = T * a[None, :, None], np.array(a * a * v)
+        got = core.impl(lambda: np.asarray(mach.project(gen.mk_stats(C, D, n, a * f + b * n[:, None], np.zeros((C, D)), 10)), float))
+        if isinstance(got, core.ImplError) or not core.close(got, out[0], 1e-6, 1e-8):
+            return {"sig": "ivector-not-invariant", "what": f"{how}, used in the original units and then converted: {got!r} vs {out[0].tolist()}"}
     return o_ivector_train(rng)
 
 
